@@ -30,6 +30,7 @@ type c28Case struct {
 	Explicit bool   `json:"explicit_port"`
 	Opt      int    `json:"opt"`     // option sample
 	Backend  string `json:"backend"` // vfs | memfs
+	Cycles   int    `json:"cycles,omitempty"` // start / talk / stop rounds on the same AbsfsNFS (0 and 1: one)
 }
 
 func freePort() int {
@@ -115,47 +116,60 @@ func runC28(tb stat.TB, c c28Case) {
 		tb.Fatalf("harness: New: %v", err)
 	}
 	defer n.Close()
-	port := 0
-	if c.Explicit {
-		port = freePort()
+	cycles := c.Cycles
+	if cycles < 1 {
+		cycles = 1
 	}
-	var addr string
-	switch c.Path {
-	case "export":
-		if err := n.Export("/export/test", port); err != nil {
-			stat.Inconclusive("C28: Export failed: " + err.Error())
-			return
+	for round := 1; round <= cycles; round++ {
+		port := 0
+		if c.Explicit {
+			port = freePort()
 		}
-		es := n.VerifExportServer()
-		if es == nil {
-			tb.Fatalf("harness: no export server")
-		}
-		addr = fmt.Sprintf("localhost:%d", es.GetPort())
-	case "listen", "portmapper":
-		srv, err := absnfs.NewServer(absnfs.ServerOptions{Port: port, Hostname: "127.0.0.1", Debug: c.Debug, UseRecordMarking: c.Path == "listen"})
-		if err != nil {
-			tb.Fatalf("harness: NewServer: %v", err)
-		}
-		srv.SetHandler(n)
-		if c.Path == "listen" {
-			err = srv.Listen()
-		} else {
-			err = srv.StartWithPortmapper()
-		}
-		if err != nil {
-			if c.Path == "portmapper" {
-				stat.Inconclusive("C28: StartWithPortmapper unavailable here (port 111): " + err.Error())
+		var addr string
+		var stop func()
+		switch c.Path {
+		case "export":
+			if err := n.Export("/export/test", port); err != nil {
+				if round == 1 {
+					stat.Inconclusive("C28: Export failed: " + err.Error())
+					return
+				}
+				stat.Violate(tb, id, check, "start-path-does-not-speak-record-marked-rpc:"+c.Path, c, "Export number %d on the same AbsfsNFS (after Unexport) failed: %v", round, err)
 				return
 			}
-			tb.Fatalf("harness: Listen: %v", err)
+			es := n.VerifExportServer()
+			if es == nil {
+				tb.Fatalf("harness: no export server")
+			}
+			addr = fmt.Sprintf("localhost:%d", es.GetPort())
+			stop = func() { n.Unexport() }
+		case "listen", "portmapper":
+			srv, err := absnfs.NewServer(absnfs.ServerOptions{Port: port, Hostname: "127.0.0.1", Debug: c.Debug, UseRecordMarking: c.Path == "listen"})
+			if err != nil {
+				tb.Fatalf("harness: NewServer: %v", err)
+			}
+			srv.SetHandler(n)
+			if c.Path == "listen" {
+				err = srv.Listen()
+			} else {
+				err = srv.StartWithPortmapper()
+			}
+			if err != nil {
+				if c.Path == "portmapper" {
+					stat.Inconclusive("C28: StartWithPortmapper unavailable here (port 111): " + err.Error())
+					return
+				}
+				tb.Fatalf("harness: Listen: %v", err)
+			}
+			stop = func() { srv.Stop() }
+			addr = fmt.Sprintf("127.0.0.1:%d", srv.GetPort())
 		}
-		defer srv.Stop()
-		addr = fmt.Sprintf("127.0.0.1:%d", srv.GetPort())
-	}
-	stage, err := c28Talk(addr)
-	if err != nil {
-		stat.Violate(tb, id, check, "start-path-does-not-speak-record-marked-rpc:"+c.Path, c, "server started through %s (debug=%v explicit port=%v backend=%s): a conformant record-marking client failed at %s: %v", c.Path, c.Debug, c.Explicit, c.Backend, stage, err)
-		return
+		stage, err := c28Talk(addr)
+		stop()
+		if err != nil {
+			stat.Violate(tb, id, check, "start-path-does-not-speak-record-marked-rpc:"+c.Path, c, "server started through %s (round %d of %d on the same AbsfsNFS, debug=%v explicit port=%v backend=%s): a conformant record-marking client failed at %s: %v", c.Path, round, cycles, c.Debug, c.Explicit, c.Backend, stage, err)
+			return
+		}
 	}
 	stat.Case(c, true, "path_"+c.Path)
 }
@@ -193,6 +207,9 @@ func TestC28(t *testing.T) {
 							continue // Export has no debug switch
 						}
 						runC28(t, c28Case{Path: p, Debug: dbg, Explicit: ex, Opt: opt, Backend: be})
+						if be == "vfs" {
+							runC28(t, c28Case{Path: p, Debug: dbg, Explicit: ex, Opt: opt, Backend: be, Cycles: 2 + opt%2})
+						}
 					}
 				}
 			}
